@@ -106,6 +106,10 @@ func genAllotCase(r *rand.Rand, id int) *Case {
 			if g > 1 && r.Intn(2) == 0 {
 				txt = fmt.Sprintf("%d/%d", p["n"].(int)/g, p["d"].(int)/g)
 			}
+			if d := p["d"].(int); 1000%d == 0 && r.Intn(2) == 0 {
+				v := p["n"].(int) * (1000 / d) // the same value spelled as a percentage with one decimal
+				txt = fmt.Sprintf("%d.%d%%", v/10, v%10)
+			}
 			c.RawVars[name] = txt
 			c.VarVals[name] = val
 			c.Decls = append(c.Decls, J{"type": "portion", "name": name, "origin": J{"k": "none"}})
